@@ -16,7 +16,7 @@
 From Coq Require Import List NArith Bool.
 From V.common Require Import Wire.
 From V.gen Require Consts.
-From V.C04 Require Import Model.
+From V.C04 Require Import Model Codec GlueCodec Carrier Yamux GlueYamux WebRtc GlueWebRtc.
 Import ListNotations.
 Open Scope N_scope.
 
@@ -250,8 +250,33 @@ Definition e2e_ok (c : codec) (ops : list eop) (trace : list N) : bool :=
   nlist_eqb trace (run_e2e c ops).
 
 Definition is_e2e (l : list N) : bool := match l with t :: _ => 10 <=? t | [] => false end.
+Definition kind_of (l : list N) : N := match l with t :: _ => t | [] => 0 end.
+
+(* kinds 30.. are the further streams (GlueCodec.v, GlueYamux.v) *)
+Definition run_ext (l : list N) : option (list N) :=
+  match kind_of l with
+  | 30 => Some (match decode_kcase l with Some k => run_kcase k | None => [0] end)
+  | 31 => Some (match decode_fcase l with Some f => run_fcase f | None => [0] end)
+  | 40 => Some (match decode_ycase l with Some y => run_ycase y | None => [0] end)
+  | 41 => Some (match decode_rcase l with Some r => run_rcase r | None => [0] end)
+  | 50 => Some (match decode_wcase l with Some w => run_wcase w | None => [0] end)
+  | 51 => Some (match decode_wrcase l with Some r => run_wrcase r | None => [0] end)
+  | _ => None
+  end.
+
+Definition ok_ext (l trace : list N) : option bool :=
+  match kind_of l with
+  | 30 => Some (match decode_kcase l with Some k => prop_ok_k k trace | None => nlist_eqb trace [0] end)
+  | 31 => Some (match decode_fcase l with Some f => prop_ok_f f trace | None => nlist_eqb trace [0] end)
+  | 40 => Some (match decode_ycase l with Some y => prop_ok_y y trace | None => nlist_eqb trace [0] end)
+  | 41 => Some (match decode_rcase l with Some r => prop_ok_r r trace | None => nlist_eqb trace [0] end)
+  | 50 => Some (match decode_wcase l with Some w => prop_ok_w w trace | None => nlist_eqb trace [0] end)
+  | 51 => Some (match decode_wrcase l with Some r => prop_ok_wr r trace | None => nlist_eqb trace [0] end)
+  | _ => None
+  end.
 
 Definition run_case (l : list N) : list N :=
+  match run_ext l with Some t => t | None =>
   if is_e2e l then match decode_e2e l with Some (c, ops) => run_e2e c ops | None => [0] end else
   match decode_case l with
   | Some t =>
@@ -259,7 +284,7 @@ Definition run_case (l : list N) : list N :=
       1 :: wt ++ run_polls (N.to_nat (t_polls t)) (t_codec t) (init_r (t_codec t))
                            (sent s ++ t_raw t) (t_rscript t)
   | None => [0]
-  end.
+  end end.
 
 (* ---- decoding a trace ---- *)
 Definition p_rle : parser (list N) :=
@@ -443,6 +468,7 @@ Fixpoint handed (c : codec) (ops : list op) (obs : list wobs) : list (list N) :=
   end.
 
 Definition prop_ok (case trace : list N) : bool :=
+  match ok_ext case trace with Some b => b | None =>
   if is_e2e case then
     match decode_e2e case with
     | Some (c, ops) => e2e_ok c ops trace
@@ -462,7 +488,7 @@ Definition prop_ok (case trace : list N) : bool :=
       end
   | None, [0] => true
   | _, _ => false
-  end.
+  end end.
 
 (* No known-finding classes for C04: the defects found were repaired (fix: commits F-C04a..f). *)
 Definition known_class (case trace : list N) : N := 0.
